@@ -303,4 +303,6 @@ pub fn run(run: &Run) {
         run.eval();
         check_plan(run, Src::fresh(Rng::derive(run.seed, 2, i)), mo, mu, i < 5);
     });
+    // thorough: the same quick workload once more under the AddressSanitizer build (memory errors in the library or its dependencies)
+    if !run.quick() { crate::lanes::asan_rerun(run); }
 }
